@@ -3,6 +3,8 @@
 From Coq Require Import ZArith String List Bool QArith Qround Qminmax Qabs Lia.
 From QV Require Import QTools.OpCount QTools.OpCountSyn Link.OpCountLink.
 From QVGen Require Import OpCountGen.
+From QVGen Require EnergyGen.
+From QV Require QTools.Energy Link.EnergyLink.
 Open Scope Z_scope.
 Import ListNotations.
 
@@ -129,3 +131,49 @@ Example C19_nonvacuous :
   (out_valid 8 3 2 1 = 3 /\ out_same 8 3 = 3 /\ oc_conv2d 3 3 4 3 3 4 2 = 648 /\
    length (conv2d_nest 3 3 4 3 3 2) = 648%nat)%Z.
 Proof. vm_compute. repeat split. Qed.
+
+(* ---- the operation-energy entry of energy_estimate as /repo has it now (coq/gen/EnergyGen.v, regenerated on every run) ---- *)
+Theorem C19_energy_translation_ok : EnergyGen.translation_ok = true.
+Proof. exact EnergyLink.link_energy_ok. Qed.
+(* the per-layer dictionary prints four entries, and the total adds exactly the variables behind those four *)
+Theorem C19_code_total_adds_every_entry :
+  (EnergyGen.gen_entry_keys = ["inputs"; "outputs"; "parameters"; "op_cost"]%string) /\ (EnergyGen.gen_total_terms = EnergyGen.gen_entry_keys) /\
+  (EnergyGen.gen_opcost_key = ["op_cost"]%string) /\ (EnergyGen.gen_total_truncated = true).
+Proof. exact EnergyLink.link_energy_entries. Qed.
+Print Assumptions C19_code_total_adds_every_entry.
+Open Scope Q_scope.
+(* the code's op_cost is never negative, for every class name, count, number of inputs and unit costs *)
+Theorem C19_code_op_cost_nonnegative : forall gf uop uadd present, (forall k, 0 <= gf k) -> (forall k, 0 <= uop k) -> (forall k, 0 <= uadd k) ->
+  forall cls count n, (0 <= count)%Z -> (1 <= n)%Z -> 0 <= EnergyGen.gen_opcost gf uop uadd present cls count n.
+Proof. intros. rewrite EnergyLink.link_opcost. apply Energy.op_cost_nonneg; assumption. Qed.
+Print Assumptions C19_code_op_cost_nonnegative.
+(* a merge layer of n inputs is charged n - 1 two-operand operations per element -- whatever the rank of its inputs *)
+Theorem C19_code_merge_cost_counts_inputs : forall gf uop uadd present cls count n, Energy.mem cls Energy.merge_classes = true ->
+  EnergyGen.gen_opcost gf uop uadd present cls count n == inject_Z ((n - 1) * count) * (gf "multiplier"%string * uop "multiplier"%string).
+Proof. intros. rewrite EnergyLink.link_opcost. apply Energy.merge_cost_is_additions_times_unit; assumption. Qed.
+Print Assumptions C19_code_merge_cost_counts_inputs.
+Theorem C19_code_merge_cost_one_more_input : forall gf uop uadd present cls count n, Energy.mem cls Energy.merge_classes = true ->
+  EnergyGen.gen_opcost gf uop uadd present cls count (n + 1) ==
+  EnergyGen.gen_opcost gf uop uadd present cls count n + inject_Z count * (gf "multiplier"%string * uop "multiplier"%string).
+Proof. intros. rewrite !EnergyLink.link_opcost. apply Energy.merge_cost_one_more_input; assumption. Qed.
+Print Assumptions C19_code_merge_cost_one_more_input.
+(* multiply-accumulate layers: one gated multiplication and one accumulator addition per counted operation *)
+Theorem C19_code_mac_cost : forall gf uop uadd present cls count n, Energy.mem cls Energy.mac_classes = true ->
+  EnergyGen.gen_opcost gf uop uadd present cls count n ==
+  inject_Z count * (gf "multiplier"%string * uop "multiplier"%string) + inject_Z count * uadd "accumulator"%string.
+Proof. intros. rewrite EnergyLink.link_opcost. apply Energy.mac_cost; assumption. Qed.
+Print Assumptions C19_code_mac_cost.
+(* pooling layers: one addition at the width of the pooling accumulator the layer map reports (key pool_sum_accumulator) *)
+Theorem C19_code_pool_cost : forall gf uop uadd present cls count n, Energy.mem cls Energy.pool_classes = true ->
+  EnergyGen.gen_opcost gf uop uadd present cls count n == inject_Z count * uadd "pool_sum_accumulator"%string.
+Proof. intros. rewrite EnergyLink.link_opcost. apply Energy.pool_cost; assumption. Qed.
+Print Assumptions C19_code_pool_cost.
+Theorem C19_code_op_cost_linear_in_count : forall gf uop uadd present cls c1 c2 n,
+  EnergyGen.gen_opcost gf uop uadd present cls (c1 + c2) n ==
+  EnergyGen.gen_opcost gf uop uadd present cls c1 n + EnergyGen.gen_opcost gf uop uadd present cls c2 n.
+Proof. intros. rewrite !EnergyLink.link_opcost. apply Energy.op_cost_linear_in_count. Qed.
+Print Assumptions C19_code_op_cost_linear_in_count.
+Theorem C19_total_is_sum_of_all_entries : forall l,
+  Energy.qsum4 l == fold_right Qplus 0 (concat (map (fun e => let '(a, b, c, d) := e in [a; b; c; d]) l)).
+Proof. exact Energy.total_is_sum_of_all_entries. Qed.
+Print Assumptions C19_total_is_sum_of_all_entries.
